@@ -62,25 +62,34 @@ def traces(ctx, which, shards, runs, maxlen):
     # that is clean almost everywhere (tens of thousands of windows), the quick tier one with a long ambiguous middle part
     lt = ctx.path("%s_long.ndjson" % which)
     kv = 1 if which == "kmermin" else 0
-    if ctx.thorough():
-        vlib.kvh(["trace", "minlong", ctx.seed, 68500, kv, 1], out=lt)
-        okl = vlib.validate_trace(ctx, "LongTrace", lt, "a 68 500-base clean sequence (positions beyond 2^16), every run judged from the input bytes",
-                                  "minit", timeout=3000)
-    else:
-        okl = True
+    vlib.kvh(["trace", "minlong", ctx.seed, 68500, kv, 1], out=lt)
+    okl = vlib.validate_trace(ctx, "LongTrace", lt, "a 68 500-base clean sequence (positions beyond 2^16), every run judged from the input bytes",
+                              "minit", timeout=3000)
     lt2 = ctx.path("%s_long2.ndjson" % which)
-    vlib.kvh(["trace", "minlong", ctx.seed + 1, 310000, kv, 0], out=lt2)
-    okl = vlib.validate_trace(ctx, "LongTrace", lt2, "a 310 000-base sequence: 300 000 bytes without a window, then 4500 windows with one minimiser "
-                              "(positions beyond 2^16), every run judged from the input bytes", "minit", timeout=3000) and okl
+    # the plain iterator: 450 000 bases with 140 000 windows sharing one minimiser; the k-mer variant (whose lists TLC has to hold):
+    # 310 000 bases with 4500 such windows, and its runs on the 450 000-base inputs compared with the plain iterator's
+    vlib.kvh(["trace", "minlong", ctx.seed + 1, 310000 if kv else 450000, kv, 0], out=lt2)
+    okl = vlib.validate_trace(ctx, "LongTrace", lt2, "a %s-base sequence: 300 000 bytes without a window, then %s windows with one minimiser "
+                              "(positions beyond 2^16), every run judged from the input bytes" % (("310 000", "4500") if kv else ("450 000", "140 000")),
+                              "minit", timeout=3000) and okl
+    if kv:
+        sm = ctx.path("kmermin_same.ndjson")
+        vlib.kvh(["trace", "minsame", ctx.seed, 450000], out=sm)
+        okl = vlib.validate_trace(ctx, "FactsTrace", sm, "plain = with-k-mers: the same runs on 450 000-base inputs (140 000 windows with one minimiser)", "eq") and okl
     # (w, m) from a wide set on 2500 bases: m anywhere in 1..31, windows of 1..257 m-mers (at and beside powers of two)
     def mid(i):
         t = ctx.path("%s_mid_%d.ndjson" % (which, i))
         vlib.kvh(["trace", "minmid", ctx.seed * 100 + i, kv], out=t)
         return t
-    mids = vlib.parallel(mid, range(12 if ctx.thorough() else 4))
+    mids = vlib.parallel(mid, range(24 if ctx.thorough() else 8))
     okm = vlib.parallel(lambda t: vlib.validate_trace(ctx, "LongTrace", t, "2500 bases, (w, m) from the wide set: " + os.path.basename(t), "minit",
                                                       timeout=3000), mids)
     okl = all(okm) and okl
+    # a window of more than 2^16 m-mers (thorough tier: judging one run costs a pass over 66 000 bases)
+    if ctx.thorough() and which == "minimiser":
+        wd = ctx.path("min_wide.ndjson")
+        vlib.kvh(["trace", "minwide", ctx.seed], out=wd)
+        okl = vlib.validate_trace(ctx, "LongTrace", wd, "a window of 65 600 m-mers: the new leftmost minimum beyond slot 2^16", "minit", timeout=3000) and okl
     # every gap length 0..130 of one repeated ambiguous byte between clean stretches just longer than a window
     gp = ctx.path("%s_gaps.ndjson" % which)
     vlib.kvh(["trace", "gaps", ctx.seed, which], out=gp)
